@@ -84,10 +84,28 @@ func Write(c *spec.Case, root string, env Env) (*Layout, error) {
 			return nil, err
 		}
 	}
-	if err := w(filepath.Join(l.AppDir, "types.go"), withImports(c, UserPkg, typesSource(c))); err != nil {
+	typesName, provName := "types.go", "providers.go"
+	saved := map[int]string{}
+	if c.OtherFilesPlain {
+		// the other files of the package sort BEFORE the declaration files and import the
+		// external packages under their own names, whatever alias the declaration files use
+		typesName, provName = "a_types.go", "a_providers.go"
+		for i := range c.Exts {
+			if !c.Exts[i].Hidden {
+				saved[i] = c.Exts[i].Alias
+				c.Exts[i].Alias = ""
+			}
+		}
+	}
+	typesSrc := withImports(c, UserPkg, typesSource(c))
+	provSrc := withImports(c, UserPkg, providersSource(c))
+	for i, a := range saved {
+		c.Exts[i].Alias = a
+	}
+	if err := w(filepath.Join(l.AppDir, typesName), typesSrc); err != nil {
 		return nil, err
 	}
-	if err := w(filepath.Join(l.AppDir, "providers.go"), withImports(c, UserPkg, providersSource(c))); err != nil {
+	if err := w(filepath.Join(l.AppDir, provName), provSrc); err != nil {
 		return nil, err
 	}
 	if len(c.PkgNames) > 0 {
